@@ -5,8 +5,9 @@ CONSTANTS
   BufSize = 1
   CpInterval = 2
   MaxAdv = 0
-  Atomic = FALSE
+  Atomic = TRUE
   Eager = TRUE
   Emit = TRUE
-INVARIANTS SafetyAsWritten EmitInv
+  AdvKinds = {}
+INVARIANTS SafetyFull EmitInv
 CHECK_DEADLOCK FALSE
